@@ -17,6 +17,7 @@ type Value struct {
 	Fn  *ssa.Function // statically known function (possibly with bindings)
 	Bnd []*Value      // closure bindings
 	Bi  *ssa.Builtin
+	Tag interface{} // driver-owned provenance (e.g. where an operand's bytes came from)
 }
 
 func (v *Value) One() *Term {
